@@ -1,10 +1,11 @@
 #!/bin/sh
 # tools/mutcheck.sh <patch-file|--revert <commit>> <Cnn> [more Cnn...]
 # Run checks against a scratch worktree of /repo with a change applied, WITHOUT touching /repo
-# (other workers build from it). Scratch: /tmp/wt_mut (worktree), /tmp/hx_mut (harness copy, own target/).
+# (other workers build from it). Scratch: /tmp/wt_$MUT_TAG (worktree), /tmp/hx_$MUT_TAG (harness copy, own target/);
+# MUT_TAG defaults to `mut` — set a different tag to run several in parallel.
 set -e
 ROOT="$(cd "$(dirname "$0")/.." && pwd)"
-WT=/tmp/wt_mut; HX=/tmp/hx_mut
+TAG="${MUT_TAG:-mut}"; WT=/tmp/wt_$TAG; HX=/tmp/hx_$TAG
 git -C /repo worktree remove --force $WT 2>/dev/null || true
 rm -rf $WT
 git -C /repo worktree add -q --detach $WT HEAD
